@@ -606,6 +606,14 @@ impl<F: Read + Write + Seek> Package<F> {
         if self.tables.contains_key(&table_name) {
             already_exists!("Table {:?} already exists", table_name);
         }
+        for column in columns.iter() {
+            if !column.is_representable() {
+                invalid_input!(
+                    "Column {:?} cannot be represented in the database",
+                    column.name()
+                );
+            }
+        }
         self.insert_rows(
             Insert::into(COLUMNS_TABLE_NAME).rows(
                 columns
